@@ -730,7 +730,8 @@ L2_CLASSES = ["flip", "flip-last", "type", "trunc", "ext", "replay", "swap", "dr
               "plaintext-appdata", "plaintext-handshake", "garbage", "oversize", "sslv2-framed", "plaintext-ccs",
               "plaintext-ccs-after-data"]
 L2_CLASSES_13 = ["outer-type", "outer-version", "zero-body", "append-zeros", "all-zero-inner",
-                 "plaintext-alert-after-data", "old-key-after-keyupdate", "plaintext-alert-at-seq0",
+                 "plaintext-alert-after-data", "old-key-after-keyupdate", "old-key-after-2-keyupdates",
+                 "old-key-after-3-keyupdates", "plaintext-alert-at-seq0",
                  "plaintext-alert-mid-handshake"]
 
 
@@ -899,7 +900,8 @@ def live_connection_case(ctx, cfg, receiver, cls, mode, payloads=None):
         L.link.inject(d, wire(chosen[0][1]))
         expect = set(DOCUMENTED) if chosen[0][2] == "reject" else {"unexpected_message"}
         pre = b""
-    elif cls in ("plaintext-alert-at-seq0", "plaintext-alert-after-data", "old-key-after-keyupdate"):
+    elif cls in ("plaintext-alert-at-seq0", "plaintext-alert-after-data", "old-key-after-keyupdate",
+                 "old-key-after-2-keyupdates", "old-key-after-3-keyupdates"):
         L = R.connect(cfg)
         if L.client.state != "done" or L.server.state != "done":
             return
@@ -923,15 +925,25 @@ def live_connection_case(ctx, cfg, receiver, cls, mode, payloads=None):
                     seen.append((t, v, bytes(b)))
                 return [(t, v, b)]
             L.link.record_filter = tap
-            L.write(sender, payloads[0])
-            got0 = L.read(receiver, None, len(payloads[0]))
-            if got0[0] != "ok" or got0[1] != payloads[0]:
-                ctx.violation("c02:honest-rejected", "honest record before KeyUpdate not delivered [%s]" % label, rep)
-                return
-            L.op(sender, L.end(sender).conn.send_keyupdate_request(KeyUpdateMessageType.update_not_requested))
-            L.read(receiver, None, 0)        # processes the KeyUpdate: new read key, sequence number 0
+            rounds = 2 if "-2-" in cls else (3 if "-3-" in cls else 1)
+            stale = None
+            for rnd in range(rounds):
+                # one record in the current epoch (sequence number 0 when rnd > 0), then the key update
+                del seen[:]
+                L.write(sender, payloads[rnd % len(payloads)])
+                got0 = L.read(receiver, None, len(payloads[rnd % len(payloads)]))
+                if got0[0] != "ok" or got0[1] != payloads[rnd % len(payloads)]:
+                    ctx.violation("c02:honest-rejected", "honest record in key epoch %d not delivered [%s]" % (rnd, label), rep)
+                    return
+                stale = seen[-1]
+                mt = KeyUpdateMessageType.update_requested if rnd % 2 else KeyUpdateMessageType.update_not_requested
+                L.op(sender, L.end(sender).conn.send_keyupdate_request(mt))
+                L.read(receiver, None, 0)    # processes the KeyUpdate: new read key, sequence number 0
+                if rnd % 2:
+                    L.read(sender, None, 0)  # ... and the requested answer
             L.link.record_filter = None
-            L.link.inject(d, wire(seen[0]))  # the record protected under the OLD key, same sequence number
+            # the first record of the PREVIOUS epoch, replayed at the same sequence number of the new epoch
+            L.link.inject(d, wire(stale))
             honest = 0
             expect = {"bad_record_mac"}
         if cls == "plaintext-alert-after-data":
